@@ -818,10 +818,21 @@ class Controller:
             logger.warning(f'!!! no connection for {sender_address}')
             return
 
-        # Send the data to the host
-        # TODO: should fragment
-        acl_packet = hci.HCI_AclDataPacket(connection.handle, 2, 0, len(data), data)
-        self.send_hci_packet(acl_packet)
+        # Send the data to the host, in as many HCI ACL packets as it takes (the
+        # length field of an HCI ACL packet is 16 bits, an L2CAP frame can be larger)
+        max_fragment_length = 0xFFFF
+        for offset in range(0, max(len(data), 1), max_fragment_length):
+            fragment = data[offset : offset + max_fragment_length]
+            acl_packet = hci.HCI_AclDataPacket(
+                connection.handle,
+                hci.HCI_ACL_PB_FIRST_FLUSHABLE
+                if offset == 0
+                else hci.HCI_ACL_PB_CONTINUATION,
+                0,
+                len(fragment),
+                fragment,
+            )
+            self.send_hci_packet(acl_packet)
 
     def on_advertising_pdu(self, pdu: ll.AdvInd | ll.AdvExtInd) -> None:
         if isinstance(pdu, ll.AdvExtInd):
